@@ -109,6 +109,8 @@ type Scenario struct {
 	RefreshLoop bool // run the real topology refresh goroutine; synchronised with a barrier at every quiescent point
 	InputEnum   bool // the scenario itself is one point of an input enumeration (counts as a distinct non-trivial case)
 	ReuseFds    bool
+	DebugLog    bool // log level "debug": Debug lines are formatted and Debug closures evaluated
+	SlowlogMs   int  // > 0: slow-log threshold in milliseconds (RedisSlowlogSlowerThan)
 	AfterBoot   func(w *World)
 	// cross-execution oracle: Observe is recorded per execution, Final judges the multiset of a scenario
 	Observe func(w *World) string
@@ -367,6 +369,7 @@ func ExecuteWith(sc *Scenario, choose vsys.Chooser, boot func(w *World)) *World 
 		vsys.OrderSites[s] = true
 	}
 	logging.VerifResetLog()
+	logging.DebugOn = sc.DebugLog
 	server.VerifReset()
 	if sc.Whitelist == nil {
 		authip.VerifSet(false)
@@ -394,7 +397,7 @@ func ExecuteWith(sc *Scenario, choose vsys.Chooser, boot func(w *World)) *World 
 		conns = 1
 	}
 	w.Opts = &core.Options{ReadBufferCap: rc, WriteBufferCap: wc, RedisMsgMaxLength: ml, RedisServerConnections: conns,
-		RedisConnectionTimeout: 200, RedisRequestTimeout: sc.TimeoutMs, RedisPasswd: sc.Password}
+		RedisConnectionTimeout: 200, RedisRequestTimeout: sc.TimeoutMs, RedisPasswd: sc.Password, RedisSlowlogSlowerThan: int64(sc.SlowlogMs)}
 	retry := sc.RetryTimeoutMs
 	if retry == 0 {
 		retry = 500
